@@ -277,10 +277,19 @@ def check_cache(case):
             if state["gamma"] is None:
                 continue
             fresh = NucleationBarrierParameters(site=state["site"], gamma=state["gamma"], gbEnergy=state["gb"])
+            ref_vals = {name: getattr(fresh, name) for name in ("areaRemoval", "gbRemoval", "volumeFactor", "areaFactor", "GBk")}     # the reference object is read factors first, the object under test ratio first
             for name in ("GBk", "areaFactor", "volumeFactor", "gbRemoval", "areaRemoval"):
-                b = float(getattr(fresh, name))
+                vb = ref_vals[name]
+                if vb is None or not isinstance(vb, (int, float, np.floating, np.integer, np.ndarray)):
+                    out.fail("factor_not_a_number", "%s of a freshly constructed object (site=%s gamma=%r gbEnergy=%r) read after GBk is %r" % (name, state["site"], state["gamma"], state["gb"], vb), factor=name)
+                    return out
+                b = float(vb)
                 try:
-                    a = float(getattr(nuc, name))
+                    va = getattr(nuc, name)
+                    if va is None:
+                        out.fail("factor_not_a_number", "after %d setter calls %s is None (site=%s gamma=%r gbEnergy=%r)" % (changes, name, state["site"], state["gamma"], state["gb"]), factor=name)
+                        return out
+                    a = float(va)
                 except ValueError as e:
                     # the generated state is admissible (a fresh object accepts it): a refusal comes from a stale cached ratio
                     out.fail("stale_factor", "after %d setter calls reading %s raised %s although a fresh object with site=%s gamma=%r gbEnergy=%r gives %r" % (changes, name, str(e)[:160], state["site"], state["gamma"], state["gb"], b), factor=name)
@@ -360,7 +369,7 @@ def clauses():
         Clause("sites", _sites, check_sites, quick=1500, thorough=60000,
                rule="generator: 1-3 phases with site types, energies, volumes and sparse populations on a 20-class grid; sites(empty) >= sites(n) >= sites(c n) >= 0 for c in (1,100]; non-trivial: occupation lowers the count"),
         Clause("cache", _cache_case, check_cache, quick=3000, thorough=150000,
-               rule="generator: 2-14 operations from {set gamma (directly or through PrecipitateParameters), set gbEnergy, set site type, read all factors} keeping k admissible; every read compared with a freshly constructed object; non-trivial: a read after >= 2 changes"),
+               rule="generator: 2-14 operations from {set gamma (directly or through PrecipitateParameters), set gbEnergy, set site type, read all factors} keeping k admissible; every read (ratio first, then the four factors) compared with a freshly constructed object (read factors first), a factor that is not a number is a violation; non-trivial: a read after >= 2 changes"),
     ]
     try:
         from . import c14_traj
